@@ -145,6 +145,23 @@ func (g *ResGen) fillComplex(m protoreflect.Message, depth int, isResource bool)
 			g.FieldSeen[string(fd.FullName())] = true
 		}
 	}
+	// Quantity and its specialisations: half of them are UCUM quantities with a real unit code (time units included)
+	switch string(md.Name()) {
+	case "Quantity", "Age", "Duration", "Distance", "Count", "SimpleQuantity", "MoneyQuantity":
+		sysF, codeF, unitF := fields.ByName("system"), fields.ByName("code"), fields.ByName("unit")
+		if sysF != nil && codeF != nil && unitF != nil && m.Has(codeF) && g.R.Intn(2) == 0 {
+			codes := []string{"min", "h", "d", "wk", "mo", "a", "s", "ms", "mg", "kg", "mm[Hg]", "1"}
+			c := codes[g.R.Intn(len(codes))]
+			setv := func(fd protoreflect.FieldDescriptor, val string) {
+				x := newMessage(fd.Message())
+				x.Set(fd.Message().Fields().ByName("value"), protoreflect.ValueOfString(val))
+				m.Set(fd, protoreflect.ValueOfMessage(x))
+			}
+			setv(sysF, "http://unitsofmeasure.org")
+			setv(codeF, c)
+			setv(unitF, c)
+		}
+	}
 }
 
 // value creates a populated message for a field of message type fmd.
@@ -317,7 +334,7 @@ func (g *ResGen) fillPrimitive(m protoreflect.Message, depth int) {
 		vals := []uint32{0, 1, 9, 2147483647}
 		set("value", protoreflect.ValueOfUint32(vals[g.R.Intn(len(vals))]))
 	case "Decimal":
-		vals := []string{"0", "1", "1.0", "1.50", "-2.5", "0.001", "100", "12345678901234567890.123456789", "-0.5", "3.14159"}
+		vals := []string{"0", "1", "1.0", "1.50", "-2.5", "0.001", "100", "12345678901234567890.123456789", "-0.5", "3.14159", "1.5e3", "2E-2", "-4.2e+1", "1e0"}
 		set("value", protoreflect.ValueOfString(vals[g.R.Intn(len(vals))]))
 	case "Base64Binary":
 		n := g.R.Intn(6)
@@ -425,7 +442,7 @@ func (g *ResGen) fillPrimitive(m protoreflect.Message, depth int) {
 	}
 }
 
-var extURLs = []string{"http://example.org/ext/a", "http://example.org/ext/b", "http://hl7.org/fhir/StructureDefinition/patient-birthPlace"}
+var extURLs = []string{"http://example.org/ext/a", "http://example.org/ext/b", "http://hl7.org/fhir/StructureDefinition/patient-birthPlace", "http://example.org/ext/A", "http://Example.org/ext/a", "http://example.org/ext/a/", "http://example.org/ext/a"}
 
 func (g *ResGen) extension(depth int) protoreflect.Message {
 	e := &dtpb.Extension{Url: &dtpb.Uri{Value: extURLs[g.R.Intn(len(extURLs))]}}
